@@ -282,7 +282,10 @@ func (x *runner) one(e *env, w *ref.World, q Request, ex expectation, eng, limit
 		r.Eval(1)
 		if key != "" {
 			if z, ok := e.zero[key]; ok {
-				if res.Reads != 0 || fmt.Sprint(res.Objs, res.Err) != fmt.Sprint(z.res.Objs, z.res.Err) {
+				// (a re-execution that DID read is not a contradiction: with racing operands - an intersection whose
+				// other operand finishes empty first - whether a read is issued at all depends on the schedule, not on
+				// the world; only two zero-read executions with different results contradict the reduction)
+				if res.Reads == 0 && fmt.Sprint(res.Objs, res.Err) != fmt.Sprint(z.res.Objs, z.res.Err) {
 					r.Violate("harness-zero-read-execution-not-stable", fmt.Sprintf("%s engine=%s: a request that made no read in one world behaves differently in another world of the same model", q, engineNames[eng]), mkCase(w, q, ex, res, eng, limit, streamed, cancelAt))
 					delete(e.zero, key)
 				}
@@ -471,7 +474,7 @@ func (x *runner) limitWorld(e *env, w *ref.World) {
 
 func Run(o *core.Options) int {
 	r := core.NewReport(o, "exploration",
-		"every model of the bounded family (one per r0-signature class, every stride-th class in quick) x every tuple subset of size<=2 of the model's pool x subjects {user:a, user:*, group:1#member, doc:2#r1, doc:1#r0} x request contexts {none,x=1,x=20} x targets {doc r0, doc r1, group member} x engines {classic, weighted reverse expansion, pipeline} x {ListObjects, StreamedListObjects}; plus the n-ary family (r0 = one union / intersection node with 3-4 operands in every order over three documents, <=5 tuples); plus max-results {1,2} on a 3-doc universe; plus cancellation of the request at its k-th datastore read for every k; oracle = independent 3-valued least-fixpoint reference; non-trivial = reference answer set non-empty or some object unevaluable; distinct by (model,tuples,universe,subject,context,type,relation)")
+		"every model of the bounded family (one per r0-signature class, every stride-th class in quick) x every tuple subset of size<=2 of the model's pool x subjects {user:a, user:*, group:1#member, doc:2#r1, doc:1#r0} x request contexts {none,x=1,x=20} x targets {doc r0, doc r1, group member} x engines {classic, weighted reverse expansion, pipeline} x {ListObjects, StreamedListObjects}; plus the deep-edge family (r0 = (this op1 V) op2 aux, both outer operand orders, V in {member from parent, r1 from parent, r1}: one subject reaches r0 through two edges of one operand; <=2 tuples); plus the n-ary family (r0 = one union / intersection node with 3-4 operands in every order over three documents, <=5 tuples); plus max-results {1,2} on a 3-doc universe; plus cancellation of the request at its k-th datastore read for every k; oracle = independent 3-valued least-fixpoint reference; non-trivial = reference answer set non-empty or some object unevaluable; distinct by (model,tuples,universe,subject,context,type,relation)")
 	r.Assume("memory datastore behind a read-counting wrapper; one datastore shared by the engine configurations of a world",
 		"planner strategy in further-eval Checks is the server's own (random) choice: a deviation is re-executed 5x and is a verdict only if it shows again",
 		"universe 2 users/2 groups/2 docs (3 docs in the limit sub-sweep); rewrites of depth<=1; one condition cx(x:int):=x<10",
@@ -556,6 +559,16 @@ func Run(o *core.Options) int {
 		r.Set("nary_family_models", len(nary))
 		x.sweep("nary", nary, ref.NaryUniverse(), kn, 1, []int{0}, 0, func(e *env, w *ref.World, idx int) {
 			r.Count("nary_worlds", 1)
+			x.mainWorld(e, w, false)
+		})
+	}
+
+	// depth-2 shapes in which one subject reaches r0 through two edges of one operand (ref.DeepEdgeFamily), <= 2 tuples
+	{
+		deep := e2.ValidModels(ref.DeepEdgeFamily())
+		r.Set("deep_edge_family_models", len(deep))
+		x.sweep("deep-edge", deep, ref.DefaultUniverse(), 2, 1, []int{0}, 0, func(e *env, w *ref.World, idx int) {
+			r.Count("deep_edge_worlds", 1)
 			x.mainWorld(e, w, false)
 		})
 	}
